@@ -59,14 +59,14 @@ def after_crash(world, ctx):
     try:
         actual = world.observe()
     except DecodeError as e:
-        world.fail(owners, "crash-file-undecodable",
+        world.fail_hard(owners, "crash-file-undecodable",
                    "process died in %s %s at step %s (%s); the surviving "
                    "file does not decode: %s"
                    % (k, _brief(op), f.step if f else "?",
                       f.fired if f else "?", e), i)
     s = match_state(actual, states)
     if s is None:
-        world.fail(owners, "crash-neither-old-nor-new",
+        world.fail_hard(owners, "crash-neither-old-nor-new",
                    "process died in %s %s at step %s (%s); surviving file "
                    "holds %d points: %s"
                    % (k, _brief(op), f.step if f else "?",
@@ -84,13 +84,13 @@ def after_crash(world, ctx):
     out = world.execute(i, {"op": "reopen", "how": "abandon"})
     world.disk.end_op()
     if out.kind != "ret":
-        world.fail(owners, "crash-reopen-failed",
+        world.fail_hard(owners, "crash-reopen-failed",
                    "after a crash in %s at step %s the database cannot be "
                    "opened: %r" % (k, f.step if f else "?", out.exc), i)
     with world.observer():
         out = world.execute(i, {"op": "all", "sorted": False})
     if out.kind != "ret" or diff_points(out.value, s.points) is not None:
-        world.fail(owners, "crash-reopen-read",
+        world.fail_hard(owners, "crash-reopen-read",
                    "after a crash in %s the reopened database reads %r"
                    % (k, out.exc if out.kind != "ret" else out.value), i)
     world.probe("recovered-after-crash")
@@ -115,18 +115,18 @@ def after_io_fault(world, ctx):
         pre = ctx["pre_bytes"] or b""
         post = world.disk.peek(DB_PATH) or b""
         if not post.startswith(pre):
-            world.fail({"C16"}, "failed-insert-not-a-prefix",
+            world.fail_hard({"C16"}, "failed-insert-not-a-prefix",
                        "%s failed at %s and rewrote existing bytes"
                        % (k, f.fired), i)
         for st in ctx["steps"]:
             if st[3] == "read":
-                world.fail({"C16"}, "read-during-failed-insert",
+                world.fail_hard({"C16"}, "read-during-failed-insert",
                            "%s failed at %s and read existing data "
                            "(%d-byte read request, %d points stored)"
                            % (k, f.fired, st[5],
                               len(ctx["pre_model"].points)), i)
             if st[4] != "primary":
-                world.fail({"C16"}, "failed-insert-foreign-inode",
+                world.fail_hard({"C16"}, "failed-insert-foreign-inode",
                            "%s failed at %s and touched %s"
                            % (k, f.fired, st[4]), i)
         world.nontrivial.add(("failed-insert", f.fired, f.mode,
@@ -147,22 +147,22 @@ def after_io_fault(world, ctx):
         if _tolerated_swallow(f):
             world.count("cleanup-error-tolerated")
         else:
-            world.fail(owners, "ioerror-swallowed",
+            world.fail_hard(owners, "ioerror-swallowed",
                        "%s %s returned %r although the OS failed %s"
                        % (k, _brief(op), out.value, site), i)
     elif inj is not None and inj not in exc_chain(out.exc):
-        world.fail(owners, "ioerror-replaced",
+        world.fail_hard(owners, "ioerror-replaced",
                    "%s raised %r which does not carry the OS error injected "
                    "at %s" % (k, out.exc, site), i)
     # (b) the file decodes to the old or the new contents
     try:
         actual = world.observe()
     except DecodeError as e:
-        world.fail(owners, "ioerror-file-undecodable",
+        world.fail_hard(owners, "ioerror-file-undecodable",
                    "after %s %s failed at %s the file does not decode: %s"
                    % (k, _brief(op), site, e), i)
     if match_state(actual, states) is None:
-        world.fail(owners, "ioerror-file-neither-old-nor-new",
+        world.fail_hard(owners, "ioerror-file-neither-old-nor-new",
                    "after %s %s failed at %s the file holds %d points: %s"
                    % (k, _brief(op), site, len(actual),
                       describe(actual, states)), i)
@@ -172,7 +172,7 @@ def after_io_fault(world, ctx):
     if post_listing != ctx["pre_listing"]:
         new = sorted(set(post_listing) - set(ctx["pre_listing"]))
         if not (f.fired[0].startswith("unlink")):
-            world.fail({"C15", "C13"}, "files-left-behind-after-ioerror",
+            world.fail_hard({"C15", "C13"}, "files-left-behind-after-ioerror",
                        "%s failed at %s and left %r behind"
                        % (k, site, [world.disk.role(p) for p in new]), i)
     world.nontrivial.add((k, f.fired, f.mode,
@@ -196,7 +196,7 @@ def after_io_fault(world, ctx):
             if world.mode in ("w", "w+"):
                 world.model.points = []  # that boot truncates, as it should
             if o2.kind != "ret":
-                world.fail(owners, "reopen-after-ioerror",
+                world.fail_hard(owners, "reopen-after-ioerror",
                            "cannot reopen after failed %s: %r"
                            % (k, o2.exc), i)
         return
@@ -247,7 +247,7 @@ def judge_degraded(world, ctx):
         world.admissible = uniq
         return
     if not matched:
-        world.fail(owners, "wrong-answer-after-ioerror",
+        world.fail_hard(owners, "wrong-answer-after-ioerror",
                    "%s %s returned %r, which agrees with none of the %d "
                    "admissible states (sizes %r)"
                    % (k, _brief(op), _short(out.value), len(members),
@@ -262,11 +262,11 @@ def judge_degraded(world, ctx):
         try:
             actual = world.observe()
         except DecodeError as e:
-            world.fail(owners, "ioerror-file-undecodable-after-close",
+            world.fail_hard(owners, "ioerror-file-undecodable-after-close",
                        "after close the file does not decode: %s" % e, i)
         s = match_state(actual, uniq)
         if s is None:
-            world.fail(owners, "ioerror-file-after-close",
+            world.fail_hard(owners, "ioerror-file-after-close",
                        "after close + reopen the file holds %d points, "
                        "admissible sizes %r: %s"
                        % (len(actual), [len(u.points) for u in uniq],
